@@ -3,6 +3,13 @@
 import json, os, glob
 ROOT = os.path.dirname(os.path.dirname(os.path.abspath(__file__)))
 
+def _atomic(path, text):
+    tmp = "%s.%d.tmp" % (path, os.getpid())
+    with open(tmp, "w") as f:
+        f.write(text)
+    os.replace(tmp, path)
+
+
 def main():
     props = {}
     for p in sorted(glob.glob(os.path.join(ROOT, "props", "C*.json"))):
@@ -26,8 +33,7 @@ def main():
             if t.get("driver_exe") and t["driver_exe"] not in seen:
                 seen.add(t["driver_exe"])
                 lf += ['[[lean_exe]]', 'name = "%s"' % t["driver_exe"], 'root = "%s"' % t["driver_root"], '']
-    with open(os.path.join(ROOT, "lean", "lakefile.toml"), "w") as f:
-        f.write("\n".join(lf))
+    _atomic(os.path.join(ROOT, "lean", "lakefile.toml"), "\n".join(lf))
     baseline = ("cd /repo && go build ./... && go test -mod=mod -json -vet=off -count=1 -timeout 25m ./...")
     checks, na = [], []
     na_reasons = {}
@@ -75,9 +81,7 @@ def main():
         "not_applicable": na,
         "notes": "All checks decide by Lean 4 theorems about a model tied to /repo by regeneration and/or a correspondence check; see DESIGN.md.",
     }
-    with open(os.path.join(ROOT, "MANIFEST.json"), "w") as f:
-        json.dump(man, f, indent=1)
-        f.write("\n")
+    _atomic(os.path.join(ROOT, "MANIFEST.json"), json.dumps(man, indent=1) + "\n")
     # known findings: merged from props/Cxx.findings.json fragments (+ the 'fixed' list kept by hand)
     kf_path = os.path.join(ROOT, "known_findings.json")
     kf = {"findings": [], "fixed": []}
@@ -102,9 +106,7 @@ def main():
                     kf["findings"].append(ent)
         except Exception as e:
             print("skipping", p, e)
-    with open(kf_path, "w") as f:
-        json.dump(kf, f, indent=1)
-        f.write("\n")
+    _atomic(kf_path, json.dumps(kf, indent=1) + "\n")
     print("checks:", len(checks), "not_applicable:", len(na))
 
 if __name__ == "__main__":
